@@ -1,4 +1,309 @@
-//! C02: harness domain (stub).
+//! C02: decoding untrusted bytes always returns — no panic, abort, stack overflow or disproportionate allocation.
+//! Every input is decoded in a CHILD process, on a thread with a 2 MiB stack (Tokio's worker default), under the
+//! counting allocator; a crash kills only the child and is attributed to the input it was working on.
+use crate::canon::{hex, hexarg, unhex};
+use crate::oracle::oracle_for;
+use crate::tgen::{gen_term, Cfg};
 use crate::Ctx;
+use std::io::{BufRead, Write};
 
-pub fn run(_ctx: &mut Ctx) {}
+const STACK: usize = 2 * 1024 * 1024;
+
+fn class<T, E>(r: std::thread::Result<Result<T, E>>) -> &'static str {
+    match r {
+        Ok(Ok(_)) => "ok",
+        Ok(Err(_)) => "err",
+        Err(_) => "panic",
+    }
+}
+
+fn entry_points(b: &[u8]) -> Vec<(&'static str, &'static str, usize)> {
+    let mut out = vec![];
+    macro_rules! ep {
+        ($name:expr, $call:expr) => {{
+            crate::alloc_reset();
+            let c = class(std::panic::catch_unwind(|| $call.map(|x| drop(x))));
+            out.push(($name, c, crate::alloc_peak_request()));
+        }};
+    }
+    ep!("decode", erltf::decode(b));
+    ep!("borrowed", erltf::decode_borrowed(b));
+    ep!("atom_cache", {
+        let mut c = erltf::AtomCache::new();
+        erltf::decode_with_atom_cache(b, &mut c)
+    });
+    ep!("trailing", erltf::decoder::decode_with_trailing(b));
+    ep!("raw", erltf::decoder::decode_raw_term(b));
+    ep!("with_cache", erltf::decoder::decode_with_cache(b));
+    ep!("frag_header", erltf::decoder::decode_fragment_header(b));
+    ep!("frag_cont", erltf::decoder::decode_fragment_cont(b));
+    out
+}
+
+/// child: one input per line (hex) in `infile`; progress lines in `outfile`
+pub fn child(outfile: &str, infile: &str) {
+    let inp = std::io::BufReader::new(std::fs::File::open(infile).unwrap());
+    let mut out = std::fs::OpenOptions::new().create(true).append(true).open(outfile).unwrap();
+    for line in inp.lines() {
+        let line = line.unwrap();
+        let (idx, h) = line.split_once(' ').unwrap();
+        writeln!(out, "BEGIN {}", idx).unwrap();
+        out.flush().unwrap();
+        let bytes = unhex(h);
+        let res = std::thread::Builder::new()
+            .stack_size(STACK)
+            .spawn(move || entry_points(&bytes))
+            .unwrap()
+            .join();
+        match res {
+            Ok(r) => {
+                let s: Vec<String> = r.iter().map(|(n, c, p)| format!("{}={}:{}", n, c, p)).collect();
+                writeln!(out, "END {} {}", idx, s.join(" ")).unwrap();
+            }
+            Err(_) => writeln!(out, "END {} thread-panicked", idx).unwrap(),
+        }
+        out.flush().unwrap();
+    }
+}
+
+fn tower(unit: &[u8], leaf: &[u8], suffix: &[u8], depth: usize) -> Vec<u8> {
+    let mut v = vec![131u8];
+    for _ in 0..depth {
+        v.extend_from_slice(unit);
+    }
+    v.extend_from_slice(leaf);
+    for _ in 0..depth {
+        v.extend_from_slice(suffix);
+    }
+    v
+}
+
+fn zlib(data: &[u8]) -> Vec<u8> {
+    let mut e = flate2::write::ZlibEncoder::new(Vec::new(), flate2::Compression::best());
+    e.write_all(data).unwrap();
+    e.finish().unwrap()
+}
+
+fn inputs(ctx: &mut Ctx) -> Vec<(String, Vec<u8>)> {
+    let mut v: Vec<(String, Vec<u8>)> = vec![];
+    // every tag byte x count-field values x {no data, 1 byte, a little}
+    let counts: [u64; 14] = [0, 1, 255, 256, 65535, 65536, 999_999, 1_000_000, 1_000_001, 9_999_999, 10_000_000, 10_000_001, 1 << 31, u32::MAX as u64];
+    for tag in 0u16..=255 {
+        let tag = tag as u8;
+        for &c in &counts {
+            for width in [1usize, 2, 4] {
+                if (width == 1 && c > 255) || (width == 2 && c > 65535) {
+                    continue;
+                }
+                // only count-like widths that the tag could plausibly read; all are harmless to try
+                for tail in [&[][..], &[106u8][..], &[97u8, 1, 97, 2, 106][..]] {
+                    let mut b = vec![131u8, tag];
+                    b.extend_from_slice(&c.to_be_bytes()[8 - width..]);
+                    b.extend_from_slice(tail);
+                    v.push((format!("tagcount"), b));
+                }
+            }
+        }
+    }
+    // NEW_FUN_EXT with a huge num_free behind a valid prefix
+    for nf in [0u32, 1, 1000, 1 << 20, 1 << 31, u32::MAX] {
+        let mut b = vec![131u8, 112, 0, 0, 0, 60, 1];
+        b.extend_from_slice(&[7u8; 16]);
+        b.extend_from_slice(&[0, 0, 0, 1]);
+        b.extend_from_slice(&nf.to_be_bytes());
+        b.extend_from_slice(&[119, 1, 109, 97, 1, 97, 2, 88, 119, 1, 110, 0, 0, 0, 1, 0, 0, 0, 2, 0, 0, 0, 3]);
+        v.push(("numfree".into(), b));
+    }
+    // nesting towers through every container tag
+    let depths: Vec<usize> = if ctx.thorough { vec![10, 100, 255, 256, 257, 258, 600, 3000, 20_000, 200_000, 1_000_000] } else { vec![10, 255, 256, 257, 258, 600, 3000, 20_000, 100_000] };
+    for &d in &depths {
+        v.push(("tower-tuple".into(), tower(&[104, 1], &[106], &[], d)));
+        v.push(("tower-large-tuple".into(), tower(&[105, 0, 0, 0, 1], &[106], &[], d)));
+        v.push(("tower-list-elem".into(), tower(&[108, 0, 0, 0, 1], &[106], &[106], d)));
+        v.push(("tower-list-tail".into(), tower(&[108, 0, 0, 0, 1, 97, 1], &[106], &[], d)));
+        v.push(("tower-map-key".into(), tower(&[116, 0, 0, 0, 1], &[106], &[97, 1], d)));
+        v.push(("tower-map-value".into(), tower(&[116, 0, 0, 0, 1, 97, 1], &[106], &[], d)));
+        v.push(("tower-local".into(), tower(&[121, 1, 2, 3, 4, 5, 6, 7, 8], &[106], &[], d)));
+        if d <= 3000 {
+            // fun free variable
+            let mut unit = vec![112u8, 0, 0, 0, 0, 1];
+            unit.extend_from_slice(&[7u8; 16]);
+            unit.extend_from_slice(&[0, 0, 0, 1, 0, 0, 0, 1, 119, 1, 109, 97, 1, 97, 2, 88, 119, 1, 110, 0, 0, 0, 1, 0, 0, 0, 2, 0, 0, 0, 3]);
+            v.push(("tower-fun".into(), tower(&unit, &[106], &[], d)));
+            // compressed inside compressed
+            let mut inner = vec![106u8];
+            for _ in 0..d.min(300) {
+                let z = zlib(&inner);
+                let mut n = vec![80u8];
+                n.extend_from_slice(&(inner.len() as u32).to_be_bytes());
+                n.extend_from_slice(&z);
+                inner = n;
+            }
+            let mut b = vec![131u8];
+            b.extend_from_slice(&inner);
+            v.push(("tower-compressed".into(), b));
+        }
+    }
+    // compressed sections that inflate to more / less than declared, and a zlib bomb
+    let payload = erltf::encode(&erltf::OwnedTerm::Binary(vec![0u8; 5000])).unwrap()[1..].to_vec();
+    for (name, data, declared) in [
+        ("z-exact", payload.clone(), payload.len() as u32),
+        ("z-declares-less", payload.clone(), 10u32),
+        ("z-declares-more", payload.clone(), payload.len() as u32 + 100),
+        ("z-declares-max", payload.clone(), 100_000_000),
+        ("z-declares-over-max", payload.clone(), 100_000_001),
+        ("z-bomb-small-decl", vec![0u8; if ctx.thorough { 200_000_000 } else { 20_000_000 }], 16),
+        ("z-bomb-max-decl", vec![0u8; if ctx.thorough { 200_000_000 } else { 20_000_000 }], 100_000_000),
+    ] {
+        let z = zlib(&data);
+        let mut b = vec![131u8, 80];
+        b.extend_from_slice(&declared.to_be_bytes());
+        b.extend_from_slice(&z);
+        v.push((name.into(), b));
+    }
+    // truncations and mutations of valid encodings
+    let n = ctx.n(120, 3000);
+    let cfg = Cfg { huge: false, ..Cfg::default() };
+    for _ in 0..n {
+        let t = gen_term(&mut ctx.rng, &cfg, 0);
+        let Ok(b) = erltf::encode(&t) else { continue };
+        if b.len() > 600 {
+            continue;
+        }
+        let step = if b.len() <= 64 { 1 } else { b.len() / 24 };
+        for k in (0..b.len()).step_by(step) {
+            v.push(("trunc".into(), b[..k].to_vec()));
+        }
+        for _ in 0..4 {
+            let mut m = b.clone();
+            for _ in 0..1 + ctx.rng.below(3) {
+                let i = ctx.rng.below(m.len() as u64) as usize;
+                m[i] = if ctx.rng.chance(1, 2) { ctx.rng.next() as u8 } else { m[i] ^ (1 << ctx.rng.below(8)) };
+            }
+            v.push(("mut".into(), m));
+        }
+    }
+    for _ in 0..n * 4 {
+        let len = ctx.rng.below(40) as usize;
+        let mut b = vec![131u8];
+        b.extend(ctx.rng.bytes(len));
+        v.push(("random".into(), b));
+    }
+    v
+}
+
+pub fn run(ctx: &mut Ctx) {
+    let ins = inputs(ctx);
+    let dir = std::env::current_dir().unwrap();
+    let infile = dir.join("c02.inputs");
+    let outfile = dir.join("c02.child.out");
+    {
+        let mut f = std::io::BufWriter::new(std::fs::File::create(&infile).unwrap());
+        for (i, (_, b)) in ins.iter().enumerate() {
+            writeln!(f, "{} {}", i, hexarg(b)).unwrap();
+        }
+    }
+    let _ = std::fs::remove_file(&outfile);
+    // run children until every input has an END or a recorded crash
+    let exe = std::env::current_exe().unwrap();
+    let mut done: Vec<Option<String>> = vec![None; ins.len()];
+    let mut start = 0usize;
+    let mut crashes = 0;
+    while start < ins.len() {
+        // write the remaining inputs
+        let part = dir.join("c02.part");
+        {
+            let mut f = std::io::BufWriter::new(std::fs::File::create(&part).unwrap());
+            for (i, (_, b)) in ins.iter().enumerate().skip(start) {
+                writeln!(f, "{} {}", i, hexarg(b)).unwrap();
+            }
+        }
+        let _ = std::fs::remove_file(&outfile);
+        let status = std::process::Command::new(&exe)
+            .args(["c02child", "quick", "0", outfile.to_str().unwrap(), part.to_str().unwrap()])
+            .stdout(std::process::Stdio::null())
+            .stderr(std::process::Stdio::null())
+            .status()
+            .unwrap();
+        let mut last_begin: Option<usize> = None;
+        if let Ok(f) = std::fs::File::open(&outfile) {
+            for l in std::io::BufReader::new(f).lines() {
+                let l = l.unwrap();
+                let mut it = l.splitn(3, ' ');
+                match (it.next(), it.next(), it.next()) {
+                    (Some("BEGIN"), Some(i), _) => last_begin = i.parse().ok(),
+                    (Some("END"), Some(i), Some(rest)) => {
+                        let i: usize = i.parse().unwrap();
+                        done[i] = Some(rest.to_string());
+                        last_begin = None;
+                    }
+                    _ => {}
+                }
+            }
+        }
+        match last_begin {
+            Some(i) if done[i].is_none() => {
+                // the child died while working on input i
+                done[i] = Some(format!("CRASH {:?}", status));
+                crashes += 1;
+                start = i + 1;
+                if crashes > 40 {
+                    break;
+                }
+            }
+            _ => {
+                if !status.success() && done.iter().skip(start).any(|d| d.is_none()) {
+                    // died without a BEGIN: give up on the rest
+                    break;
+                }
+                start = ins.len();
+            }
+        }
+    }
+    let term_size = std::mem::size_of::<erltf::BorrowedTerm>().max(std::mem::size_of::<erltf::OwnedTerm>());
+    ctx.add("sizeof_term", term_size as u64);
+    for (i, (kind, b)) in ins.iter().enumerate() {
+        ctx.count(&format!("kind_{}", kind));
+        let short = if b.len() > 120 { format!("{}..({} bytes)", hex(&b[..60]), b.len()) } else { hex(b) };
+        let Some(res) = &done[i] else {
+            ctx.fail("c02-not-run", &format!("{} {}", kind, short));
+            continue;
+        };
+        if res.starts_with("CRASH") || res.starts_with("thread-panicked") {
+            ctx.fail("c02-process-abort", &format!("{} {} -> {}", kind, short, res));
+            continue;
+        }
+        // inflated bytes this input actually contains (bounded by what it declares)
+        let inflated: usize = if b.len() > 6 && b[1] == 80 {
+            u32::from_be_bytes([b[2], b[3], b[4], b[5]]) as usize
+        } else {
+            0
+        };
+        let inflated = inflated.min(100_000_000);
+        let bound = 4 * term_size * (b.len() + 16) + 3 * inflated + 65536;
+        for ep in res.split(' ') {
+            let (name, rest) = ep.split_once('=').unwrap();
+            let (cls, peak) = rest.split_once(':').unwrap();
+            let peak: usize = peak.parse().unwrap();
+            ctx.count(&format!("{}_{}", name, cls));
+            if cls == "panic" {
+                ctx.fail("c02-panic", &format!("{} {} entry={}", kind, short, name));
+            }
+            if peak > bound {
+                ctx.fail("c02-disproportionate-allocation", &format!("{} {} entry={} largest single request {} > bound {}", kind, short, name, peak, bound));
+            }
+        }
+        // model tie for the two main decoders (outcome class), where the oracle table is available and the line stays small
+        if b.len() <= 3000 {
+            if let Some(orc) = oracle_for(b) {
+                let o = crate::c01::dec_result(b).0;
+                let bw = crate::c13::borrowed(b).0;
+                let oc = o.split(' ').next().unwrap().to_string();
+                let bc = bw.split(' ').next().unwrap().to_string();
+                ctx.tie(kind, &format!("c02class {} {}", hexarg(b), orc), &format!("{} {}", if oc == "trailing" { "err".into() } else { oc }, if bc == "trailing" { "err".into() } else { bc }));
+            }
+        }
+    }
+    let _ = std::fs::remove_file(&infile);
+    let _ = std::fs::remove_file(dir.join("c02.part"));
+}
